@@ -27,7 +27,14 @@ class StreamBackend(LoggerBackend):
                       ):
         if is_right_for_level(log_data.verbose, log_entry.level):
             for message in log_entry.resolve_messages():
-                self.stderr.write("%s: %s\n" % (log_data.program_name, message))
+                try:
+                    self.stderr.write(
+                        "%s: %s\n" % (log_data.program_name, message))
+                except (IOError, OSError):
+                    # a message that cannot be written (the reader of the
+                    # pipe went away, the log file is full) must not change
+                    # what happens to the files: the exit status still tells
+                    pass
 
 
 def is_right_for_level(verbose,  # type: int
